@@ -110,7 +110,7 @@ class NonTrainable(AbstractUnwrappable[T]):
     _dummy: ClassVar[None] = None
 
     def unwrap(self) -> T:
-        differentiable, static = eqx.partition(self.tree, eqx.is_array_like)
+        differentiable, static = eqx.partition(self.tree, eqx.is_array)
         return eqx.combine(lax.stop_gradient(differentiable), static)
 
 
